@@ -11,7 +11,7 @@ LEVEL_TEXT = "Deductive proof of cutplace's share (branching, slicing, sheet sel
 LEVEL_NOTE = "Trusts xlrd / xlsxwriter / CPython float and datetime rendering through audited axioms, the pyvc encoding, z3/cvc5."
 TECHNIQUE = "contract-based deductive verification (VCs from the ast of the real functions, z3/cvc5) + bounded workbook audit"
 from contracts import validio as VIO
-UNITS = [XL.unit_excel_cell_value(), XL.unit_excel_rows(), VIO.unit_raw_rows(), RW.unit_xlsx_row_writer_write_row(), RW.unit_xlsx_row_writer_write_rows(), XL.unit_excel_workbooks()]
+UNITS = [XL.unit_excel_cell_value(), XL.unit_excel_rows(), VIO.unit_raw_rows(), RW.unit_xlsx_row_writer_write_row(), RW.unit_xlsx_row_writer_write_rows(), RW.unit_xlsx_row_writer_close(), XL.unit_excel_workbooks()]
 from contracts import storage as STO
 UNITS += [STO.unit_auto_rows().also("C16")]
 from contracts import data as D
